@@ -14,6 +14,9 @@ def leaf(c, kind):
         return ("#(", ("E", c.sites(), "a"), ("E", c.sites(), "b"))
     if kind == "write":
         return ("do", ("setv", "a", c.leaf("x")), ("#(", ("E", c.sites(), "a"), ("E", c.sites(), "b")))
+    if kind == "selfref":
+        # the assignment target is read inside a statement-producing value form: it must still hold its old value there
+        return ("do", ("setv", "a", ("or", ("E", c.sites(), 0), ("do", ("setv", "q9", "b"), ("F", "a", "q9")))), ("#(", ("E", c.sites(), "a"), ("E", c.sites(), "b")))
     if kind == "closure":
         # a closure that reads a and b, returned and called by the caller after all scopes are left
         return ("fn", ("[",), ("#(", ("E", c.sites(), "a"), ("E", c.sites(), "b")))
@@ -86,7 +89,7 @@ def allowed(ks, lk):
             under_lfor = False
         elif k == "setv-then" and under_lfor:
             return False
-    if lk == "write" and under_lfor:
+    if lk in ("write", "selfref") and under_lfor:
         return False
     return True
 
@@ -97,7 +100,7 @@ def skeletons(tier):
     n = 0
     for d in range(1, maxd + 1):
         for ks in itertools.product(KINDS, repeat=d):
-            for lk in ("read", "write", "closure"):
+            for lk in ("read", "write", "closure", "selfref"):
                 n += 1
                 if not allowed(ks, lk):
                     continue
@@ -134,7 +137,7 @@ def spec(tier, seed):
             "hy.core.result_macros.compile_let, compile_assign(let_scope=...), compile_function_lambda/def, compile_comprehension, compile_try_expression (except variable)",
             "hy.scoping.ScopeLet (add/access/assign/define), ScopeFn.__exit__ propagation, ScopeGen, ResolveOuterVars",
         ],
-        "bounds": "nestings of depth 1..%d over %d binding constructs %s and three leaves (read a,b / setv a then read / closure called after all scopes are left), "
+        "bounds": "nestings of depth 1..%d over %d binding constructs %s and four leaves (read a,b / setv a then read / closure called after all scopes are left / setv a to a statement-producing form that reads a), "
                   "name pool {a, b}; module level and inside (fn []); depth 2 %s, depth 3 sampled (every %s), depth 4 %s; every bound value is a symbolic int, so a reference that "
                   "resolves to the wrong binding differs for some assignment" % (
                       3 if tier == "quick" else 4, len(KINDS), KINDS, "every 3rd" if tier == "quick" else "all", "29th" if tier == "quick" else "3rd",
